@@ -346,7 +346,8 @@ theorem finish_spec {H : Heur} (hH : H.InRange) (minC maxC : Nat) (hM : 1 ≤ ma
     ∃ n' s, finish H minC maxC leaf level es = .ok (n', s) ∧
       n'.leaf = leaf ∧ n'.level = level ∧ n'.entries ≠ [] ∧ n'.entries.length ≤ maxC ∧
       (∀ nn, s = some nn → nn.leaf = leaf ∧ nn.level = level ∧ nn.entries ≠ [] ∧ nn.entries.length ≤ maxC) ∧
-      (n'.entries ++ (match s with | some nn => nn.entries | none => [])).Perm es := by
+      (n'.entries ++ (match s with | some nn => nn.entries | none => [])).Perm es ∧
+      (s = none → n'.entries = es) := by
   unfold finish
   split_ifs with h
   · obtain ⟨l, r, h1, h2, h3, h4⟩ := splitEntries_spec hH minC es (by omega)
@@ -354,10 +355,195 @@ theorem finish_spec {H : Heur} (hH : H.InRange) (minC maxC : Nat) (hM : 1 ≤ ma
     simp only [List.length_append] at hl
     have hl1 : 0 < l.length := List.length_pos_iff.mpr h3
     have hr1 : 0 < r.length := List.length_pos_iff.mpr h4
-    refine ⟨.mk leaf level l, some (.mk leaf level r), ?_, rfl, rfl, h3, by simp [Node.entries]; omega, ?_, h2⟩
+    refine ⟨.mk leaf level l, some (.mk leaf level r), ?_, rfl, rfl, h3, by simp [Node.entries]; omega, ?_, h2, by simp⟩
     · rw [h1]; rfl
     · intro nn hnn; cases hnn
       exact ⟨rfl, rfl, h4, by simp [Node.entries]; omega⟩
-  · exact ⟨.mk leaf level es, none, rfl, rfl, rfl, hne, by simp [Node.entries]; omega, by simp, by simp [Node.entries]⟩
+  · exact ⟨.mk leaf level es, none, rfl, rfl, rfl, hne, by simp [Node.entries]; omega, by simp, by simp [Node.entries], fun _ => rfl⟩
+
+/-! ### insert -/
+
+theorem insertAt_mk (H : Heur) (minC maxC lvl : Nat) (e : Entry O) (leaf : Bool) (level : Nat)
+    (es : List (Entry O)) :
+    insertAt H minC maxC lvl e (.mk leaf level es) =
+      (if leaf || level == lvl then finish H minC maxC leaf level (es ++ [e])
+      else if es.isEmpty then throw .nilDeref
+      else match es[H.chooseEntry (es.map Entry.bb) e.bb]? with
+        | none => throw .choice
+        | some (.obj _ _) => throw .nilDeref
+        | some (.child _ c) => do
+          let (c', s) ← insertAt H minC maxC lvl e c
+          let es1 := es.set (H.chooseEntry (es.map Entry.bb) e.bb) (.child c'.bbox c')
+          match s with
+          | none => pure (.mk leaf level es1, none)
+          | some nn => finish H minC maxC leaf level (es1 ++ [.child nn.bbox nn])) := by
+  rw [insertAt]
+  split_ifs <;> try rfl
+  split <;> (dsimp only; split) <;> simp_all <;> rfl
+
+theorem set_perm {α : Type} (l : List α) (i : Nat) (x : α) (h : i < l.length) :
+    (l.set i x).Perm (x :: l.eraseIdx i) := by
+  have h' : i < (l.set i x).length := by simpa using h
+  have := perm_eraseIdx (l.set i x) i h'
+  simpa [List.eraseIdx_set_eq] using this
+
+theorem optObjs_eq (s : Option (Node O)) :
+    (match s with | some nn => nn.objs | none => []) = (match s with | some nn => nn.entries | none => []).flatMap Entry.objs := by
+  cases s with
+  | none => rfl
+  | some nn => obtain ⟨l, v, es⟩ := nn; simp [Node.objs_mk, Node.entries]
+
+theorem insertAt_spec [Bounded O] {H : Heur} (hH : H.InRange) (minC maxC : Nat) (hM : 1 ≤ maxC)
+    (lvl : Nat) (e : Entry O) (hl1 : 1 ≤ lvl) (he : wfEntry maxC lvl e) :
+    ∀ (n : Node O) (h : Nat), wfNode maxC h n = true → lvl ≤ h → (lvl < h → n.entries ≠ []) →
+      ∃ n' s, insertAt H minC maxC lvl e n = .ok (n', s) ∧ wfNode maxC h n' = true ∧ n'.entries ≠ [] ∧
+        (∀ nn, s = some nn → wfNode maxC h nn = true ∧ nn.entries ≠ []) ∧
+        (n'.objs ++ (match s with | some nn => nn.objs | none => [])).Perm (n.objs ++ e.objs) ∧
+        (s = none → n.entries.length ≤ n'.entries.length) := by
+  intro n
+  induction n using Node.induct with
+  | h l v es ih =>
+    intro h hw hlh hne
+    have hw' := (wfNode_mk ..).mp hw
+    obtain ⟨hv, hl, h1, hlen, hes⟩ := hw'
+    subst hv
+    rw [insertAt_mk]
+    by_cases hstop : (l || v == lvl) = true
+    · -- the node where the entry is appended
+      simp only [hstop, if_true]
+      have hvl : v = lvl := by
+        rcases Bool.or_eq_true _ _ |>.mp hstop with h | h
+        · have := hl.mp h; omega
+        · simpa using h
+      subst hvl
+      obtain ⟨n', s, h1', h2, h3, h4, h5, h6, h7, h8⟩ := finish_spec hH minC maxC hM l v (es ++ [e])
+        (by simp; omega) (by simp)
+      have hall : ∀ x ∈ es ++ [e], wfEntry maxC v x := by
+        intro x hx; rcases List.mem_append.mp hx with hx | hx
+        · exact hes x hx
+        · simp at hx; subst hx; exact he
+      refine ⟨n', s, h1', ?_, h4, ?_, ?_, ?_⟩
+      rotate_left 3
+      · intro hs; rw [h8 hs]; simp [Node.entries]
+      · obtain ⟨l', v', es'⟩ := n'
+        simp only [Node.leaf, Node.level, Node.entries] at h2 h3 h4 h5 h7
+        subst h2 h3
+        rw [wfNode_mk]
+        exact ⟨rfl, hl, h1, h5, fun x hx => hall x (h7.mem_iff.mp (List.mem_append_left _ hx))⟩
+      · intro nn hnn
+        obtain ⟨a, b, c, d⟩ := h6 nn hnn
+        subst hnn
+        obtain ⟨l', v', es'⟩ := nn
+        simp only [Node.leaf, Node.level, Node.entries] at a b c d h7
+        subst a b
+        refine ⟨?_, c⟩
+        rw [wfNode_mk]
+        exact ⟨rfl, hl, h1, d, fun x hx => hall x (h7.mem_iff.mp (List.mem_append_right _ hx))⟩
+      · rw [optObjs_eq]
+        obtain ⟨l', v', es'⟩ := n'
+        simp only [Node.objs_mk, Node.entries] at h7 ⊢
+        rw [← List.flatMap_append]
+        have := h7.flatMap_right Entry.objs
+        simpa using this
+    · -- descend
+      simp only [hstop, if_false, Bool.false_eq_true]
+      have hstop' : l = false ∧ ¬ v = lvl := by simpa using hstop
+      have hlf : l = false := hstop'.1
+      have hvl : v ≠ lvl := hstop'.2
+      have hlt : lvl < v := by omega
+      have hne' : es ≠ [] := by simpa [Node.entries] using hne hlt
+      have hemp : es.isEmpty = false := by simpa using hne'
+      simp only [hemp, if_false, Bool.false_eq_true]
+      have hi := hH.choose (es.map Entry.bb) e.bb (by simpa using hne')
+      simp only [List.length_map] at hi
+      generalize H.chooseEntry (es.map Entry.bb) e.bb = i at hi
+      rw [List.getElem?_eq_getElem hi]
+      have hmem : es[i] ∈ es := List.getElem_mem hi
+      have hwe := hes _ hmem
+      cases hei : es[i] with
+      | obj b o => rw [hei] at hwe; obtain ⟨h1', _⟩ := hwe; omega
+      | child b c =>
+        rw [hei] at hwe hmem
+        obtain ⟨_, hwc, henv⟩ := hwe
+        have hcne : c.entries ≠ [] := by
+          have := ((isEnvelope_iff _ _).mp henv).ne
+          obtain ⟨l', v', es'⟩ := c
+          intro h; simp only [Node.entries] at h; subst h
+          simp [Node.objs_mk] at this
+        obtain ⟨c', s, hc1, hc2, hc3, hc4, hc5, _⟩ := ih b c hmem (v - 1) hwc (by omega) (fun _ => hcne)
+        simp only [hc1, bind, Except.bind]
+        have hnew : wfEntry maxC v (Entry.child c'.bbox c') :=
+          ⟨by omega, hc2, (isEnvelope_iff _ _).mpr (wfNode.bbox_env hc2 hc3)⟩
+        have hes1 : ∀ x ∈ es.set i (Entry.child c'.bbox c'), wfEntry maxC v x := by
+          intro x hx
+          rcases List.mem_or_eq_of_mem_set hx with hx | hx
+          · exact hes x hx
+          · subst hx; exact hnew
+        have hperm0 : (es.flatMap Entry.objs).Perm (c.objs ++ (es.eraseIdx i).flatMap Entry.objs) := by
+          have := (perm_eraseIdx es i hi).flatMap_right Entry.objs
+          simpa [hei, Entry.objs] using this
+        have hperm1 : ((es.set i (Entry.child c'.bbox c')).flatMap Entry.objs).Perm
+            (c'.objs ++ (es.eraseIdx i).flatMap Entry.objs) := by
+          have := (set_perm es i (Entry.child c'.bbox c') hi).flatMap_right Entry.objs
+          simpa [Entry.objs] using this
+        cases s with
+        | none =>
+          simp only
+          refine ⟨_, none, rfl, ?_, by simp [Node.entries, hne'], by simp, ?_, by simp [Node.entries]⟩
+          · rw [wfNode_mk]; exact ⟨rfl, hl, h1, by simpa using hlen, hes1⟩
+          · simp only [Node.objs_mk, List.append_nil] at hc5 ⊢
+            refine hperm1.trans ?_
+            refine List.Perm.trans ?_ (List.Perm.append_right _ hperm0.symm)
+            have := List.Perm.append_right ((es.eraseIdx i).flatMap Entry.objs) hc5
+            refine this.trans ?_
+            simp only [List.append_assoc]
+            exact List.Perm.append_left _ List.perm_append_comm
+        | some nn =>
+          simp only
+          obtain ⟨hn1, hn2⟩ := hc4 nn rfl
+          have hnn : wfEntry maxC v (Entry.child nn.bbox nn) :=
+            ⟨by omega, hn1, (isEnvelope_iff _ _).mpr (wfNode.bbox_env hn1 hn2)⟩
+          obtain ⟨n', s', h1', h2, h3, h4, h5, h6, h7, h8⟩ := finish_spec hH minC maxC hM l v
+            (es.set i (Entry.child c'.bbox c') ++ [Entry.child nn.bbox nn]) (by simp; omega) (by simp)
+          have hall : ∀ x ∈ es.set i (Entry.child c'.bbox c') ++ [Entry.child nn.bbox nn], wfEntry maxC v x := by
+            intro x hx; rcases List.mem_append.mp hx with hx | hx
+            · exact hes1 x hx
+            · simp at hx; subst hx; exact hnn
+          refine ⟨n', s', h1', ?_, h4, ?_, ?_, ?_⟩
+          rotate_left 3
+          · intro hs; rw [h8 hs]; simp [Node.entries]
+          · obtain ⟨l', v', es'⟩ := n'
+            simp only [Node.leaf, Node.level, Node.entries] at h2 h3 h4 h5 h7
+            subst h2 h3
+            rw [wfNode_mk]
+            exact ⟨rfl, hl, h1, h5, fun x hx => hall x (h7.mem_iff.mp (List.mem_append_left _ hx))⟩
+          · intro n2 hn2'
+            obtain ⟨a, b', c'', d⟩ := h6 n2 hn2'
+            subst hn2'
+            obtain ⟨l', v', es'⟩ := n2
+            simp only [Node.leaf, Node.level, Node.entries] at a b' c'' d h7
+            subst a b'
+            refine ⟨?_, c''⟩
+            rw [wfNode_mk]
+            exact ⟨rfl, hl, h1, d, fun x hx => hall x (h7.mem_iff.mp (List.mem_append_right _ hx))⟩
+          · rw [optObjs_eq]
+            obtain ⟨l', v', es'⟩ := n'
+            simp only [Node.objs_mk, Node.entries] at h7 hc5 ⊢
+            rw [← List.flatMap_append]
+            have h7' := h7.flatMap_right Entry.objs
+            refine h7'.trans ?_
+            simp only [List.flatMap_append, List.flatMap_cons, List.flatMap_nil, List.append_nil, Entry.objs]
+            refine (List.Perm.append_right _ hperm1).trans ?_
+            refine List.Perm.trans ?_ (List.Perm.append_right _ hperm0.symm)
+            -- c'.objs ++ rest ++ nn.objs ~ c.objs ++ rest ++ e.objs
+            have e1 : (c'.objs ++ (es.eraseIdx i).flatMap Entry.objs ++ nn.objs).Perm
+                ((c'.objs ++ nn.objs) ++ (es.eraseIdx i).flatMap Entry.objs) := by
+              simp only [List.append_assoc]
+              exact List.Perm.append_left _ List.perm_append_comm
+            have e2 : ((c.objs ++ e.objs) ++ (es.eraseIdx i).flatMap Entry.objs).Perm
+                (c.objs ++ (es.eraseIdx i).flatMap Entry.objs ++ e.objs) := by
+              simp only [List.append_assoc]
+              exact List.Perm.append_left _ List.perm_append_comm
+            exact e1.trans ((List.Perm.append_right _ hc5).trans e2)
 
 end GeomV.C11
